@@ -266,6 +266,16 @@ def confirm(c, nd, nr):
     if c['key'] == 'c13:reuse-differs':
         obs = {'dev': nd.request(c['request']), 'release': nr.request(c['request'])}
         return any(o.get('kind') != 'ok' or not o.get('equal') for o in obs.values()), obs
+    if 'compiled, searched and dropped' in (c.get('what') or ''):
+        # the outcome of (e2, doc) after (e1, doc) ran and was dropped in the same process vs in a fresh process
+        from vf import native as nat
+        w = c['witness']; out = {}
+        for prof in ('dev', 'release'):
+            a = nat.Native(prof); b = nat.Native(prof)
+            after = a.request({'op': 'seq', 'reqs': [{'op': 'search_default', 'expr': w['e1'], 'doc': w['d1']}, {'op': 'search_default', 'expr': w['e2'], 'doc': w['d2']}]})
+            fresh = b.request({'op': 'search_default', 'expr': w['e2'], 'doc': w['d2']})
+            a.close(); b.close(); out[prof] = {'after_e1': after[1] if isinstance(after, list) and len(after) > 1 else after, 'fresh': fresh}
+        return any(json.dumps(o['after_e1'], sort_keys=True) != json.dumps(o['fresh'], sort_keys=True) for o in out.values()), out
     if 'not the parse of its argument' in (c.get('what') or ''):
         # history dependence of compile(): the tree for e2 after e1 was compiled vs in a fresh process (thread-local / static caches start empty)
         from vf import native as nat
